@@ -55,6 +55,10 @@ def build_hand(c):
         se = rng.integers(0, 4, size=(nc,) + sh[1:]) / 2048.0 if c.get("pow2", True) else rng.uniform(0, 2e-3, size=(nc,) + sh[1:])
         sm = rng.integers(0, 4, size=(nc,) + sh[1:]) * 64.0 if c.get("pow2", True) else rng.uniform(0, 2e2, size=(nc,) + sh[1:])
         se = se * float(c.get("sigma_scale", 1.0)); sm = sm * float(c.get("sigma_scale", 1.0))      # strongly conducting cells: loss factor f > 1
+        if c.get("sigma_single"):      # one conducting cell in a lossless box (directed search for a non-passive update)
+            cell = tuple(int(rng.integers(0, n)) for n in sh[1:])
+            keep = np.zeros_like(se); keep[(slice(None),) + cell] = 1.0
+            se = np.maximum(se, 1.0 / 2048.0 * float(c.get("sigma_scale", 1.0))) * keep
         if c["sigma"] in (True, "E", "EH"):
             arrays = arrays.aset("electric_conductivity", jnp.asarray(se))
         if c["sigma"] in ("H", "EH"):
